@@ -29,6 +29,7 @@ type Event struct {
 	Applied bool          `json:"applied,omitempty"`
 	Twin    bool          `json:"twin,omitempty"` // scan: also scan a clone with a fresh controller
 	RealMs  int64         `json:"realMs,omitempty"` // init: real-time mode with ticks of this many milliseconds
+	MemShift int          `json:"memShift,omitempty"` // init: the memory unit is 1 MiB << MemShift
 }
 
 // apply performs one environment event on the world; false if it did not apply.
@@ -776,10 +777,14 @@ func cmdDrive(fs *flag.FlagSet, args []string) {
 	iso := fs.Bool("iso", false, "isolation twin: re-run every history without the events of one group and record both call sequences (C12)")
 	trace := fs.String("trace", "trace.ndjson", "output: scan lines for TLC")
 	events := fs.String("events", "", "output: all events (for replay)")
+	huge := fs.Bool("huge", false, "memory unit 1 TiB instead of 1 MiB: group totals of hundreds of TiB (int64 headroom of milli-byte arithmetic)")
 	par := fs.Int("par", 1, "parallel histories (metrics are process-global: keep 1 when gauges matter)")
 	fs.Parse(args)
 	if *realtime > 0 {
 		world.Tick, world.RealTime = *realtime, true
+	}
+	if *huge {
+		world.MemUnit = int64(1) << 40
 	}
 	tr := newOut(*trace)
 	defer tr.close()
@@ -822,6 +827,9 @@ func driveOne(src string, seed int64, o genOpts, tr, ev *out) int {
 	var lines []interface{}
 	var evs []interface{}
 	ie := Event{Ev: "init", Src: src, State: init, Seed: seed}
+	if world.MemUnit == int64(1)<<40 {
+		ie.MemShift = 20
+	}
 	if world.RealTime {
 		ie.RealMs = int64(world.Tick / time.Millisecond)
 	}
@@ -914,6 +922,7 @@ func cmdReplay(fs *flag.FlagSet, args []string) {
 			} else {
 				world.Tick, world.RealTime = time.Hour, false
 			}
+			world.MemUnit = int64(1) << (20 + uint(e.MemShift))
 			w, err = world.Build(e.Seed, e.State)
 			if err != nil {
 				fatal("build:", err)
